@@ -45,6 +45,16 @@ var injErrs = []error{
 	status.Error(codes.Unknown, "injected: storage unavailable"),
 }
 
+// bctx: the Storage contract does not oblige an implementation to look at the context of
+// its short calls (the in-memory one ignores it in Put, CasByVersion and Delete); with knob
+// ctx_blind the storage of this run never does, except in WaitForVersionChange.
+func (s *simStore) bctx(ctx context.Context) context.Context {
+	if s.w.c.Knob("ctx_blind", 0) == 1 {
+		return context.Background()
+	}
+	return ctx
+}
+
 func (s *simStore) inj() error { return injErrs[int(s.w.c.Knob("err_kind", 0))%len(injErrs)] }
 
 type provider struct {
@@ -159,7 +169,7 @@ func (s *simStore) gate(ctx context.Context, kind string, renew bool) (execute b
 		seam, ord = "acq", w.ordAcq
 	}
 	zsimrt.Yield("st:req:" + kind)
-	if ctx != nil && ctx.Err() != nil && kind != "wait" && w.be.Kind == backend.InMem {
+	if ctx != nil && ctx.Err() != nil && kind != "wait" && w.be.Kind == backend.InMem && w.c.Knob("ctx_blind", 0) == 0 {
 		// like a networked store, the seam refuses a request whose context is already
 		// done (WaitForVersionChange reports that itself). The in-memory backend
 		// ignores contexts; the Redis client does this check on its own, so there
@@ -222,7 +232,7 @@ func (s *simStore) Create(ctx context.Context, r kvs.Record) (string, error) {
 		return "", s.wrapErr(ferr)
 	}
 	who := zsimrt.CurrentName()
-	ver, err := s.base.Create(ctx, r)
+	ver, err := s.base.Create(s.bctx(ctx), r)
 	s.w.e.Logf("st n%d create by %s -> %s", s.node, who, errStr(err))
 	if err == nil && r.Key == lockKey {
 		s.w.onCreate(who, ver, r, lost)
@@ -260,7 +270,7 @@ func (s *simStore) Get(ctx context.Context, key string) (kvs.Record, error) {
 	if !exec {
 		return kvs.Record{}, s.wrapErr(ferr)
 	}
-	r, err := s.base.Get(ctx, key)
+	r, err := s.base.Get(s.bctx(ctx), key)
 	zsimrt.Yield("st:resp:get")
 	if lost {
 		return kvs.Record{}, s.wrapErr(s.inj())
@@ -278,7 +288,7 @@ func (s *simStore) Put(ctx context.Context, r kvs.Record) (kvs.Record, error) {
 	if !exec {
 		return kvs.Record{}, s.wrapErr(ferr)
 	}
-	rr, err := s.base.Put(ctx, r)
+	rr, err := s.base.Put(s.bctx(ctx), r)
 	if err == nil && r.Key == lockKey {
 		s.w.onForeignWrite("Put", zsimrt.CurrentName(), openAtInvoke)
 	}
@@ -301,7 +311,7 @@ func (s *simStore) CasByVersion(ctx context.Context, r kvs.Record) (kvs.Record, 
 	if !exec {
 		return kvs.Record{}, s.wrapErr(ferr)
 	}
-	rr, err := s.base.CasByVersion(ctx, r)
+	rr, err := s.base.CasByVersion(s.bctx(ctx), r)
 	s.w.e.Logf("st n%d cas -> %s", s.node, errStr(err))
 	if r.Key == lockKey {
 		s.w.onCas(r, rr, err, unlockedAtInvoke)
@@ -322,7 +332,7 @@ func (s *simStore) Delete(ctx context.Context, key string) error {
 		return s.wrapErr(ferr)
 	}
 	who := zsimrt.CurrentName()
-	err := s.base.Delete(ctx, key)
+	err := s.base.Delete(s.bctx(ctx), key)
 	s.w.e.Logf("st n%d delete by %s -> %s", s.node, who, errStr(err))
 	zsimrt.Yield("st:resp:delete")
 	s.replyLatency()
@@ -516,6 +526,16 @@ func (w *world) Setup(e *sim.Env) {
 		p := &provider{idx: i, st: st}
 		p.p = dist.NewKvsLockProvider(st, lockPath)
 		w.provs = append(w.provs, p)
+	}
+	if x := w.c.Knob("other_lockers", 0); x > 0 {
+		// some provider has been asked for lockers of other, oddly shaped names before (they
+		// are never used): what a provider does for one name must not reach another
+		odd := []string{"/x", "/" + lockName, "//", "x/", "", lockName + "/", " " + lockName}
+		for k := int64(0); k < 3; k++ {
+			pi := int((x + k) % int64(np))
+			_ = w.provs[pi].p.NewLocker(odd[int(x+k*3)%len(odd)])
+		}
+		e.Probe("provider_asked_for_other_names_first")
 	}
 	for i := 0; i < nl; i++ {
 		pi := i % np
